@@ -46,6 +46,7 @@ type HarnessSpec struct {
 	Goroutines  bool     `json:"goroutines"`
 	VirtualTime bool     `json:"virtual_time"`
 	NoMerge     bool     `json:"no_merge"`
+	LazySlices  bool     `json:"lazy_slices"`
 	Quick       TierSpec `json:"quick"`
 	Thorough    TierSpec `json:"thorough"`
 	Bounds      string   `json:"bounds"`
@@ -255,7 +256,7 @@ func cmdRun(args []string) int {
 		}
 		cfg := symgo.Config{Workers: 16, Params: r.tier.Params, Unwind: r.tier.Unwind, MaxPaths: r.tier.MaxPaths,
 			MaxSteps: r.tier.MaxSteps, KnownIDs: knownIDs, Goroutines: r.spec.Goroutines, VirtualTime: r.spec.VirtualTime,
-			NoMerge: r.spec.NoMerge, Seed: seed()}
+			NoMerge: r.spec.NoMerge, LazySlices: r.spec.LazySlices, Seed: seed()}
 		if r.tier.DeadlineS > 0 {
 			cfg.Deadline = time.Now().Add(time.Duration(r.tier.DeadlineS) * time.Second)
 		}
@@ -289,7 +290,7 @@ func cmdRun(args []string) int {
 		bin := bins[r.spec.Pkg]
 		hv := harnessEvidence{Harness: r.spec.Func, Pkg: r.spec.Pkg, Bounds: r.spec.Bounds, Params: r.tier.Params,
 			Unwind: r.tier.Unwind, Paths: res.Paths, Infeasible: res.Infeasible, Decisions: res.Decisions, Queries: res.Queries,
-			Merges: res.Merges, Steps: res.Steps, Incomplete: res.Incomplete, IncompleteExamples: res.IncompleteEx,
+			Merges: res.Merges, Fallbacks: res.Fallbacks, FallbackDecided: res.FallbackDecided, Steps: res.Steps, Incomplete: res.Incomplete, IncompleteExamples: res.IncompleteEx,
 			Truncated: res.Truncated, WallS: res.Wall.Seconds(), AssertSites: res.AssertSites, Reached: res.Reached}
 		// vacuity
 		if res.Paths == 0 {
@@ -433,6 +434,8 @@ type harnessEvidence struct {
 	Decisions          int            `json:"decisions"`
 	Queries            int            `json:"solver_queries"`
 	Merges             int            `json:"merged_diamonds"`
+	Fallbacks          int            `json:"cvc5_fallback_queries"`
+	FallbackDecided    int            `json:"cvc5_fallback_decided"`
 	Steps              int64          `json:"ssa_instructions"`
 	Incomplete         map[string]int `json:"incomplete_paths"`
 	IncompleteExamples []string       `json:"incomplete_examples,omitempty"`
@@ -500,13 +503,13 @@ func (e *evidence) write(wall float64) {
 		"explanation": "states = symbolic paths completed (each covers every input satisfying its path condition); transitions = solver-decided branch/obligation decisions; " +
 			"traces_validated_against_impl = native replays of solver models (translator validation + counterexample confirmation). " +
 			"exhaustive=true means every path within the stated bounds was completed with no unknown/unwind/unsupported/truncated path.",
-		"harnesses":         e.Harnesses,
-		"functions_encoded": funcs,
-		"queries":           map[string]int{"sat": e.Solver.Sat, "unsat": e.Solver.Unsat, "unknown": e.Solver.Unknown, "errors": e.Solver.Errors},
-		"solver_time_s":     e.Solver.Time.Seconds(),
+		"harnesses":            e.Harnesses,
+		"functions_encoded":    funcs,
+		"queries":              map[string]int{"sat": e.Solver.Sat, "unsat": e.Solver.Unsat, "unknown": e.Solver.Unknown, "errors": e.Solver.Errors},
+		"solver_time_s":        e.Solver.Time.Seconds(),
 		"load_and_ssa_build_s": e.LoadS,
-		"incomplete_paths":  incomplete,
-		"solver":            "z3 4.8.12 (z3 -in), SMT-LIB2 bit-vector/Bool/Real terms regenerated from go/ssa of /repo's working tree on this run",
+		"incomplete_paths":     incomplete,
+		"solver":               "z3 4.8.12 (z3 -in), SMT-LIB2 bit-vector/Bool/Real terms regenerated from go/ssa of /repo's working tree on this run",
 	}
 	if len(e.SolverErrors) > 0 {
 		cov["solver_errors"] = e.SolverErrors
@@ -606,6 +609,8 @@ func cmdHarness(args []string) int {
 			cfg.Goroutines = true
 		case a == "--vtime":
 			cfg.VirtualTime = true
+		case a == "--lazy":
+			cfg.LazySlices = true
 		case a == "--nomerge":
 			cfg.NoMerge = true
 		case a == "--native":
@@ -640,7 +645,7 @@ func cmdHarness(args []string) int {
 	res := ex.Run()
 	fmt.Printf("paths=%d infeasible=%d decisions=%d queries=%d merges=%d steps=%d wall=%.1fs solver=%.1fs sat=%d unsat=%d unknown=%d\n",
 		res.Paths, res.Infeasible, res.Decisions, res.Queries, res.Merges, res.Steps, res.Wall.Seconds(), res.Solver.Time.Seconds(), res.Solver.Sat, res.Solver.Unsat, res.Solver.Unknown)
-	fmt.Println("pruned:", res.Pruned, "init steps:", res.InitSteps, "foreign globals:", len(res.ForeignGlobals))
+	fmt.Println("fallbacks:", res.Fallbacks, "decided:", res.FallbackDecided, "pruned:", res.Pruned, "init steps:", res.InitSteps, "foreign globals:", len(res.ForeignGlobals))
 	if res.Fatal != "" {
 		fmt.Println("FATAL:", res.Fatal)
 	}
